@@ -977,7 +977,8 @@ Section CleanOrphansSpec.
     i_sub : forall e, In e cur -> In e g1;
     i_nodup : NoDup (keys cur);
     i_bad : forall c x, In (c, Some x) cur -> absent cur x -> In (c, Some x) order;
-    i_kids : forall x, In x (keys cur) -> forall c, In c (ch x) -> In c (keys cur)
+    i_kids : forall x, In x (keys cur) -> forall c, In c (ch x) -> In c (keys cur);
+    i_healthy : forall x n, steps_to_root g1 x n -> In x (keys cur)
   }.
 
   Lemma same_entry id v w : In (id, v) g1 -> In (id, w) g1 -> v = w.
@@ -998,7 +999,7 @@ Section CleanOrphansSpec.
       (* the entry just visited is not needed any more when it is absent or not an orphan *)
       assert (Hskip : (lookup cur id = None \/ par = None \/ exists p, par = Some p /\ lookup cur p <> None) ->
                       inv r cur).
-      { intros Hc. destruct Hinv as [Is Ind Ib Ik]. constructor; try assumption.
+      { intros Hc. destruct Hinv as [Is Ind Ib Ik Ih]. constructor; try assumption.
         intros c x Hin Ha. destruct (Ib c x Hin Ha) as [Heq|Hin']; [|exact Hin'].
         exfalso. inversion Heq; subst. destruct Hc as [Hc|[Hc|[p [Hp Hc]]]].
         - apply in_keys_of_in in Hin. destruct (in_keys_lookup _ _ Hin). congruence.
@@ -1011,7 +1012,7 @@ Section CleanOrphansSpec.
       destruct (delete_subtree fuel ch cur id) as [cur1| |] eqn:Hd; try discriminate. cbn [bind] in H.
       apply (IH cur1 cur' Hr); [|exact H].
       pose proof (delete_subtree_post ch _ _ _ _ Hd) as P.
-      destruct Hinv as [Is Ind Ib Ik].
+      destruct Hinv as [Is Ind Ib Ik Ih].
       assert (Hidabs : absent cur1 id) by (apply (dp_roots _ _ _ _ P); left; reflexivity).
       constructor.
       + intros e He'. apply Is. apply (dp_sub _ _ _ _ P). exact He'.
@@ -1035,6 +1036,21 @@ Section CleanOrphansSpec.
           destruct (in_keys_lookup _ _ Hx0). congruence.
         * apply in_children_of in Hy. assert (Some x = Some y) by (eapply same_entry; eassumption).
           inversion H0; subst. contradiction.
+      + assert (Hidp : lookup g1 id = Some (Some p)) by (apply (lookup_of_in _ _ _ Hnd1); exact He).
+        assert (Hgen : forall m x, steps_to_root g1 x m -> In x (keys cur1)).
+          { induction m as [|m IHm]; intros x Hs.
+            - inversion Hs as [? Hroot|]; subst.
+              destruct (in_keys_dec cur1 x) as [Hin|Hnin]; [exact Hin|exfalso].
+              destruct (dp_up _ _ _ _ P x (Ih _ _ Hs) Hnin) as [[<-|[]]|[y [Hy _]]]; [congruence|].
+              apply in_children_of in Hy. apply (lookup_of_in _ _ _ Hnd1) in Hy. congruence.
+            - inversion Hs as [|? q' ? Hlq Hsq]; subst.
+              destruct (in_keys_dec cur1 x) as [Hin|Hnin]; [exact Hin|exfalso].
+              destruct (dp_up _ _ _ _ P x (Ih _ _ Hs) Hnin) as [[<-|[]]|[y [Hy Hay]]].
+              + assert (q' = p) by congruence. subst q'.
+                pose proof (Ih _ _ Hsq) as Hpin. destruct (in_keys_lookup _ _ Hpin). congruence.
+              + apply in_children_of in Hy. apply (lookup_of_in _ _ _ Hnd1) in Hy.
+                assert (q' = y) by congruence. subst q'. apply Hay. apply (IHm _ Hsq). }
+        intros x n Hs. eapply Hgen. exact Hs.
   Qed.
 End CleanOrphansSpec.
 
@@ -1076,7 +1092,8 @@ Theorem hierarchy_spec g :
   exists g2, update_queue_hierarchy (fuel_of g) g = Done g2 /\
              wellformed g2 = true /\
              (forall e, In e g2 -> In e g) /\
-             (forall x c, lookup g2 x <> None -> In c (hierarchy_children g x) -> lookup g2 c = Some (Some x)).
+             (forall x c, lookup g2 x <> None -> In c (hierarchy_children g x) -> lookup g2 c = Some (Some x)) /\
+             (forall x n, steps_to_root g x n -> lookup g2 x = lookup g x /\ lookup (clean_cycles g) x = lookup g x).
 Proof.
   intros Hnd. apply nodup_keys_NoDup in Hnd.
   set (g1 := clean_cycles g).
@@ -1113,13 +1130,14 @@ Proof.
     - intros e He. exact He.
     - exact Hnd1.
     - intros c x Hin _. exact Hin.
-    - intros x _ c Hc. apply in_children_of in Hc. eapply in_keys_of_in. exact Hc. }
-  destruct Hinv as [Is Ind Ib Ik].
+    - intros x _ c Hc. apply in_children_of in Hc. eapply in_keys_of_in. exact Hc.
+    - intros x n Hs. destruct (steps_lookup _ _ _ Hs) as [v Hv]. eapply lookup_in_keys. exact Hv. }
+  destruct Hinv as [Is Ind Ib Ik Ih].
   assert (Hlk : forall x v, lookup g2 x = Some v -> lookup g1 x = Some v).
   { intros x v Hl. apply lookup_in in Hl. apply Is in Hl. apply (lookup_of_in _ _ _ Hnd1). exact Hl. }
   assert (Hpar : forall x p, lookup g2 x = Some (Some p) -> lookup g2 p <> None).
   { intros x p Hl Hn. apply lookup_in in Hl. destruct (Ib x p Hl). intros Hin. destruct (in_keys_lookup _ _ Hin). congruence. }
-  split; [|split].
+  split; [|split; [|split]].
   - unfold wellformed. rewrite (NoDup_nodup_keys _ Ind). cbn [andb].
     apply forest_iff_is_forest. intros id Hin.
     destruct (in_keys_lookup _ _ Hin) as [v Hv].
@@ -1136,6 +1154,20 @@ Proof.
     pose proof (Ik x Hxin c Hc) as Hcin.
     destruct (in_keys_lookup _ _ Hcin) as [v Hv].
     apply Hlk in Hv as Hv1. apply in_children_of in Hc. apply (lookup_of_in _ _ _ Hnd1) in Hc. congruence.
+  - (* queues whose own chain reaches a root keep their entry *)
+    assert (Hk1 : forall x n, steps_to_root g x n -> lookup g1 x = lookup g x).
+    { intros x n Hs. destruct (steps_lookup _ _ _ Hs) as [v Hv]. rewrite Hv.
+      apply (lookup_of_in _ _ _ Hnd1). unfold g1, clean_cycles. apply filter_In. split; [apply lookup_in; exact Hv|].
+      apply negb_true_iff. cbn [fst]. apply reaches_not_unbounded.
+      apply (reaches_root_mono_le _ _ n); [|apply steps_reaches; exact Hs].
+      pose proof (steps_bounded _ _ _ Hs). lia. }
+    assert (Hs1 : forall x n, steps_to_root g x n -> steps_to_root g1 x n).
+    { induction 1 as [id Hl|id p n Hl Hs IHs].
+      - constructor. rewrite (Hk1 id 0); [exact Hl|constructor; exact Hl].
+      - econstructor; [|exact IHs]. rewrite (Hk1 id (S n)); [exact Hl|econstructor; eassumption]. }
+    intros x n Hs. split; [|eapply Hk1; exact Hs].
+    pose proof (Ih _ _ (Hs1 _ _ Hs)) as Hin. destruct (in_keys_lookup _ _ Hin) as [v Hv].
+    rewrite Hv. apply Hlk in Hv. rewrite <- (Hk1 _ _ Hs). symmetry. exact Hv.
 Qed.
 
 (** * The bundles *)
@@ -1157,7 +1189,7 @@ Qed.
 
 Theorem total_on_any_graph g : nodup_keys (keys g) = true -> total_after_hierarchy g.
 Proof.
-  intros Hnd. destruct (hierarchy_spec g Hnd) as [g2 [H2 [Hw [_ Hch]]]].
+  intros Hnd. destruct (hierarchy_spec g Hnd) as [g2 [H2 [Hw [_ [Hch _]]]]].
   exists g2. split; [exact H2|]. split; [exact Hw|]. split; [apply total_on_wellformed; exact Hw|].
   split; [apply message_total_any|].
   pose proof Hw as Hw'. unfold wellformed in Hw'. apply andb_true_iff in Hw'. destruct Hw' as [Hn Hf].
@@ -1224,3 +1256,134 @@ Lemma messy_cleaned :
   nodup_keys (keys g_messy) = true /\
   update_queue_hierarchy (fuel_of g_messy) g_messy = Done [(1%positive, None); (2%positive, Some 1%positive)].
 Proof. vm_compute. split; reflexivity. Qed.
+
+(** * Non-interference *)
+Lemma lookup_app g e x :
+  lookup (g ++ e) x = match lookup g x with Some v => Some v | None => lookup e x end.
+Proof.
+  induction g as [|[k p] g IH]; [reflexivity|]. cbn [app lookup].
+  destruct (Pos.eqb k x); [reflexivity|exact IH].
+Qed.
+
+Lemma steps_app g e x n : steps_to_root g x n -> steps_to_root (g ++ e) x n.
+Proof.
+  induction 1 as [id Hl|id p n Hl Hs IH].
+  - constructor. rewrite lookup_app, Hl. reflexivity.
+  - econstructor; [|exact IH]. rewrite lookup_app, Hl. reflexivity.
+Qed.
+
+Lemma walk_until_healthy g stop :
+  forall n q, steps_to_root g q n ->
+  forall ga f, (forall x m, steps_to_root g x m -> lookup ga x = lookup g x) -> S n <= f ->
+  walk_until f ga stop (Some q) = walk_until (S n) g stop (Some q).
+Proof.
+  induction 1 as [id Hl|id p n Hl Hs IH]; intros ga f Hag Hf.
+  - destruct f as [|f]; [lia|]. cbn [walk_until].
+    rewrite (Hag id 0) by (constructor; exact Hl). rewrite Hl.
+    destruct (stop id); [reflexivity|]. rewrite !walk_until_none. reflexivity.
+  - destruct f as [|f]; [lia|]. cbn [walk_until].
+    rewrite (Hag id (S n)) by (econstructor; eassumption). rewrite Hl.
+    destruct (stop id); [reflexivity|].
+    rewrite (IH ga f Hag) by lia. reflexivity.
+Qed.
+
+Lemma nodup_keys_app_l g e : nodup_keys (keys (g ++ e)) = true -> nodup_keys (keys g) = true.
+Proof.
+  intros H. apply nodup_keys_NoDup in H. apply NoDup_nodup_keys.
+  unfold keys in *. rewrite map_app in H. revert H. generalize (map fst e) as l2. generalize (map fst g) as l1.
+  induction l1 as [|x l1 IH]; intros l2 H; [constructor|].
+  cbn in H. inversion H as [|? ? Hn Hr]; subst. constructor; [|eapply IH; exact Hr].
+  intros Hin. apply Hn. apply in_or_app. left. exact Hin.
+Qed.
+
+(** eligibility through any graph [ga] that agrees with [g] on the healthy queues of [g] *)
+Lemma eligible_core g ga (ch : qid -> list qid) s1 s2 q n f :
+  steps_to_root g q n ->
+  (forall x m, steps_to_root g x m -> lookup ga x = lookup g x) ->
+  S n <= f ->
+  (if job_admitted ga ch q then
+     bind (walk_until f ga s1 (Some q)) (fun r1 =>
+     bind (walk_until f ga s2 (Some q)) (fun r2 =>
+       Done (match r1, r2 with None, None => true | _, _ => false end)))
+   else Done false)
+  =
+  (if job_admitted g ch q then
+     bind (walk_until (S n) g s1 (Some q)) (fun r1 =>
+     bind (walk_until (S n) g s2 (Some q)) (fun r2 =>
+       Done (match r1, r2 with None, None => true | _, _ => false end)))
+   else Done false).
+Proof.
+  intros Hs Hag Hf.
+  assert (Hadm : job_admitted ga ch q = job_admitted g ch q).
+  { unfold job_admitted. rewrite (Hag _ _ Hs).
+    destruct (lookup g q) as [[p|]|] eqn:Hl; try reflexivity.
+    inversion Hs as [? Hr|? p' n' Hl' Hs']; subst; [congruence|].
+    assert (p' = p) by congruence. subst p'. rewrite (Hag _ _ Hs'). reflexivity. }
+  rewrite Hadm. destruct (job_admitted g ch q); [|reflexivity].
+  rewrite (walk_until_healthy g s1 n q Hs ga f Hag Hf).
+  rewrite (walk_until_healthy g s2 n q Hs ga f Hag Hf). reflexivity.
+Qed.
+
+(** the job's queue is a leaf in the stored ChildQueues iff no entry of [g] names it as parent *)
+Lemma leaf_iff g q n :
+  nodup_keys (keys g) = true -> steps_to_root g q n ->
+  (hierarchy_children g q = [] <-> forall c, ~ In (c, Some q) g).
+Proof.
+  intros Hnd Hs. pose proof Hnd as Hnd'. apply nodup_keys_NoDup in Hnd'.
+  destruct (hierarchy_spec g Hnd) as [g2 [_ [_ [_ [_ Hh]]]]].
+  unfold hierarchy_children. split.
+  - intros He c Hin.
+    assert (Hc : steps_to_root g c (S n)) by (econstructor; [apply (lookup_of_in _ _ _ Hnd'); exact Hin|exact Hs]).
+    destruct (Hh _ _ Hc) as [_ Hk]. apply (lookup_of_in _ _ _ Hnd') in Hin. rewrite Hin in Hk.
+    apply lookup_in in Hk. apply in_children_of in Hk. rewrite He in Hk. contradiction.
+  - intros Hno. destruct (children_of (clean_cycles g) q) as [|c r] eqn:Hc; [reflexivity|exfalso].
+    assert (Hin : In c (children_of (clean_cycles g) q)) by (rewrite Hc; left; reflexivity).
+    apply in_children_of in Hin. apply clean_cycles_sub in Hin. apply (Hno c). apply Hin.
+Qed.
+
+Lemma job_admitted_leaf_only g ch ch' q :
+  (ch q = [] <-> ch' q = []) -> job_admitted g ch q = job_admitted g ch' q.
+Proof.
+  intros H. unfold job_admitted. destruct (lookup g q) as [par|]; [|reflexivity]. f_equal.
+  destruct (ch q) eqn:E1, (ch' q) eqn:E2; try reflexivity.
+  - destruct H as [H _]. specialize (H eq_refl). discriminate.
+  - destruct H as [_ H]. specialize (H eq_refl). discriminate.
+Qed.
+
+Theorem healthy_unaffected_holds : healthy_unaffected.
+Proof.
+  intros g e s1 s2 q n Hnd Hs Hno.
+  pose proof (nodup_keys_app_l _ _ Hnd) as Hndg.
+  pose proof (steps_app g e q n Hs) as Hs'.
+  destruct (hierarchy_spec (g ++ e) Hnd) as [ga [Ha [_ [_ [_ Hha]]]]].
+  destruct (hierarchy_spec g Hndg) as [gb [Hb [_ [_ [_ Hhb]]]]].
+  unfold eligible. rewrite Ha, Hb. cbn [bind].
+  assert (Hleaf : hierarchy_children (g ++ e) q = [] <-> hierarchy_children g q = []).
+  { rewrite (leaf_iff (g ++ e) q n Hnd Hs'), (leaf_iff g q n Hndg Hs). split.
+    - intros H c Hin. apply (H c). apply in_or_app. left. exact Hin.
+    - intros H c Hin. apply in_app_or in Hin. destruct Hin as [Hin|Hin]; [apply (H c Hin)|apply (Hno c Hin)]. }
+  rewrite (job_admitted_leaf_only ga _ _ q Hleaf).
+  pose proof (steps_bounded _ _ _ Hs) as Hbound.
+  assert (Hag : forall x m, steps_to_root g x m -> lookup ga x = lookup g x).
+  { intros x m Hx. destruct (Hha x m (steps_app _ _ _ _ Hx)) as [-> _]. rewrite lookup_app.
+    destruct (steps_lookup _ _ _ Hx) as [v ->]. reflexivity. }
+  assert (Hbg : forall x m, steps_to_root g x m -> lookup gb x = lookup g x).
+  { intros x m Hx. destruct (Hhb x m Hx) as [-> _]. reflexivity. }
+  rewrite (eligible_core g ga _ s1 s2 q n (fuel_of (g ++ e)) Hs Hag).
+  2:{ unfold fuel_of. rewrite app_length. lia. }
+  rewrite (eligible_core g gb _ s1 s2 q n (fuel_of g) Hs Hbg).
+  2:{ unfold fuel_of. lia. }
+  reflexivity.
+Qed.
+
+(** non-vacuity: a healthy tree next to a cycle, an orphan and a job queue that stays a leaf *)
+Lemma healthy_example :
+  let g := [(1%positive, None); (2%positive, Some 1%positive)] in
+  let e := [(3%positive, Some 3%positive); (4%positive, Some 9%positive); (5%positive, Some 1%positive)] in
+  nodup_keys (keys (g ++ e)) = true /\ steps_to_root g 2%positive 1 /\ (forall c, ~ In (c, Some 2%positive) e) /\
+  eligible (fuel_of (g ++ e)) (g ++ e) (fun _ => false) (fun _ => false) 2%positive = Done true.
+Proof.
+  cbn zeta. split; [reflexivity|]. split; [econstructor; [reflexivity|constructor; reflexivity]|]. split.
+  - intros c [H|[H|[H|[]]]]; discriminate.
+  - vm_compute. reflexivity.
+Qed.
